@@ -270,10 +270,10 @@ h("C19", "c19", "c19_orient2d_unrestricted", "quick", 900,
 h("C19", "c19", "c19_orient2d_robust_unrestricted", "quick", 900,
   "RobustKernel::orientation D=2 over UNRESTRICTED doubles: no panic/overflow/OOB",
   ["geometry::kernel::RobustKernel::orientation", "geometry::robust_predicates::robust_orientation"] + LU3, kani_args=NOFLOATCHK)
-h("C19", "c19", "c19_orient3d_unrestricted", "thorough", 3000,
+h("C19", "c19", "c19_orient3d_unrestricted", "thorough", 6000,
   "simplex_orientation D=3 over UNRESTRICTED doubles: no panic/overflow/OOB", ["geometry::predicates::simplex_orientation"] + LU4,
   kani_args=NOFLOATCHK)
-h("C19", "c19", "c19_insphere2d_unrestricted", "thorough", 3000,
+h("C19", "c19", "c19_insphere2d_unrestricted", "thorough", 10000,
   "insphere and insphere_lifted D=2 over UNRESTRICTED doubles: no panic/overflow/OOB",
   ["geometry::predicates::insphere", "geometry::predicates::insphere_lifted"] + LU4, kani_args=NOFLOATCHK)
 h("C19", "c19", "c19_volume_unrestricted", "quick", 900,
